@@ -283,9 +283,30 @@ def focus_cfg(rng):
     return one_layout(cfg)
 
 
+def cells_cfg(rng, subset):
+    """crystal structure given by the subset of the four ways: the block that walks through the priority list"""
+    cfg = sample_cfg(rng, clean=True)
+    o = cfg["obj"]
+    name = rng.choice(["tetab", "tric", "tetsnf", "nacl"] if len(subset) > 1 else ["tetab", "tric", "tetsnf"])
+    o["cell"].update(name=name, mag="none", ext=False, masses="std", generic=False)
+    o["cell"].update(W.cell_attrs(name))
+    o["np"] = dict(W.NP_OBJ0)
+    a = cfg["args"]
+    calc_arg = rng.choice(["none", "vasp", "qe"])
+    a.update(cells={k: (k in subset) for k in NO_CELLS}, calcArg=calc_arg,
+             fmt=("qe" if calc_arg == "qe" else "vasp") if rng.random() < 0.8 else rng.choice(["vasp", "qe"]),
+             smatArg=(len(subset) == 1 or rng.random() < 0.5), pmatArg=rng.random() < 0.6, np=dict(NP_ARG0),
+             nacArg=False, bornFile=False)
+    cfg["big"] = False
+    return one_layout(cfg)
+
+
 def saveload_layer(ctx, col, replay_cfgs=None):
     n = 210 if ctx.quick else 3000
     nfocus = 40 if ctx.quick else 500
+    import itertools
+    subsets = [c for r in (1, 2, 3, 4) for c in itertools.combinations(list(NO_CELLS), r)]   # 15
+    ncells = len(subsets) * (1 if ctx.quick else 12)
     events, texts = [], []
     nprng = np.random.default_rng(ctx.seed + 77)
     if replay_cfgs is not None:
@@ -294,7 +315,12 @@ def saveload_layer(ctx, col, replay_cfgs=None):
         if replay_cfgs is not None:
             cfg, wseed = replay_cfgs[i]
         else:
-            cfg = focus_cfg(ctx.rng) if i >= n - nfocus else sample_cfg(ctx.rng)
+            if i >= n - ncells:
+                cfg = cells_cfg(ctx.rng, subsets[(n - 1 - i) % len(subsets)])
+            elif i >= n - ncells - nfocus:
+                cfg = focus_cfg(ctx.rng)
+            else:
+                cfg = sample_cfg(ctx.rng)
             wseed = ctx.seed * 100003 + i
         ev, aux = run_one(cfg, wseed, gonze_budget=1.0 if replay_cfgs is not None else (0.2 if ctx.quick else 0.5))
         events.append(ev)
@@ -325,6 +351,17 @@ def saveload_layer(ctx, col, replay_cfgs=None):
                 violated_all.add(name)
                 continue
             violated_all.add(name)
+            try:
+                eo, ob = e["eo"], e["obs"]
+                want = ("snf" if eo["np"]["snf"] else "classic") if eo["cell"]["snfS"] else "same"
+                misordered = (ob["status"] == "ok" and ob["cell"]["src"] == "yaml" and ob["np"]["order"] != want)
+            except Exception:
+                misordered = False
+            if misordered and name in ("ImplNumbers", "ImplPhonons", "ImplPhononsFromSaved", "ImplCells"):
+                # numbers attached to the atoms of another order: the consequence of ImplAtomOrder, reported under its key
+                ctx.violation("saveload:ImplAtomOrder", "C16 save/load requirement ImplAtomOrder fails on the implementation's outcome",
+                              dict(invariant="ImplAtomOrder", consequence=name, event=e))
+                continue
             ctx.violation("saveload:" + name, "C16 save/load requirement %s fails on the implementation's outcome" % name,
                           dict(invariant=name, event=e))
     ctx.extra["saveload_events"] = len(events)
